@@ -14,7 +14,8 @@
 (*   RevComp/FmdText, BiDef.  No algorithm: counting and quantifiers only.  *)
 (* MACHINE LAYER (shaped like the code; the state variables and actions     *)
 (*   that step these operators are in SuffixIndexMC_C03..C06):              *)
-(*   Kasai LCP loop, SUS formula, sampled-SA construction and LF walk,      *)
+(*   SA-IS phases (types, LMS, induced sort, naming, recursion), Kasai LCP  *)
+(*   loop, SUS formula, sampled-SA construction and LF walk,                *)
 (*   Occ checkpoints + Occ::get with both branches and the scaled           *)
 (*   look-ahead threshold T, backward-search LF loop, FMD backward_ext /    *)
 (*   forward_ext / init_interval_with and the two sweeps of smems.          *)
@@ -256,11 +257,26 @@ OccGetB(cp, bwt, k, T, r, a) ==
         ELSE <<"fwd", CountIn(bwt, lo * k + 2, r + 1, a) + lo_occ>>            \* bwt[lo_idx+1 ..= r]
 OccGet(cp, bwt, k, T, r, a) == OccGetB(cp, bwt, k, T, r, a)[2]
 
+\* ------------------------------------- invert_bwt / bwtfind (bwt.rs)
+(* bwtfind: fs = [r, less, bf]; one step per BWT row: bf[less[c]] = r; less[c] += 1              *)
+BwtFindInit(bwt) == [r |-> 0, less |-> [c \in Range(bwt) |-> LessDef(bwt, c)], bf |-> [i \in 1..Len(bwt) |-> 0]]
+BwtFindStep(fs, bwt) ==
+    LET c == bwt[fs.r + 1] IN
+    [r |-> fs.r + 1, less |-> [fs.less EXCEPT ![c] = @ + 1], bf |-> [fs.bf EXCEPT ![fs.less[c] + 1] = fs.r]]
+(* invert_bwt: ws = [r, out]; r starts at bwtfind[0]; each step r = bwtfind[r]; out.push(bwt[r])   *)
+InvInit(bf) == [r |-> bf[1], out |-> << >>]
+InvStep(ws, bwt, bf) == LET r2 == bf[ws.r + 1] IN [r |-> r2, out |-> Append(ws.out, bwt[r2 + 1])]
+
 (* An index as the FM/FMD code sees it: ix = [bwt, less, k, T, cps].  k = 0 means "Occ by       *)
 (* definition"; otherwise occ goes through the checkpoint table cps and Occ::get.                *)
 MkIndex(t, sa, k, T, syms) ==
     LET b == Eager(BwtDef(t, sa)) IN
     [bwt |-> b, less |-> Eager([c \in 0..(SetMax(syms) + 1) |-> LessDef(t, c)]), k |-> k, T |-> T,
+     cps |-> IF k = 0 THEN << >> ELSE Eager([c \in syms |-> Eager(CheckpointsDef(b, k, syms)[c])])]
+\* the same with `less` tabulated only on the symbols in lessDom (large byte alphabets in traces)
+MkIndexOn(t, sa, k, T, syms, lessDom) ==
+    LET b == Eager(BwtDef(t, sa)) IN
+    [bwt |-> b, less |-> Eager([c \in lessDom |-> LessDef(t, c)]), k |-> k, T |-> T,
      cps |-> IF k = 0 THEN << >> ELSE Eager([c \in syms |-> Eager(CheckpointsDef(b, k, syms)[c])])]
 IxOcc(ix, r, a) == IF ix.k = 0 THEN OccDef(ix.bwt, r, a) ELSE OccGet(ix.cps[a], ix.bwt, ix.k, ix.T, r, a)
 
@@ -287,6 +303,74 @@ SusViaLcp(sa, lcp) ==
             LET i   == CHOOSE x \in 1..n : sa[x] = p1 - 1
                 len == 1 + Max2(lcp[i], IF i + 1 <= Len(lcp) THEN lcp[i + 1] ELSE 0)
             IN  IF n - (p1 - 1) >= len THEN len ELSE None]
+
+\* ------------------------- SA-IS (suffix_array.rs: Sais, PosTypes)
+(* X = integer text (what transform_text hands to Sais::construct, or the text of                 *)
+(* suffix_array_int): dense over 0..max, unique minimum at the end.  Positions 0-based; `n` in a  *)
+(* slot of pos means "unknown" as in the code.                                                    *)
+RECURSIVE SaisTypesR(_, _, _)
+SaisTypesR(X, p, ty) ==        \* p = 1-based position still to type, from the right; TRUE = S-type
+    IF p = 0 THEN ty
+    ELSE SaisTypesR(X, p - 1, [ty EXCEPT ![p] = IF X[p] = X[p + 1] THEN ty[p + 1] ELSE X[p] < X[p + 1]])
+SaisTypes(X) == SaisTypesR(X, Len(X) - 1, [i \in 1..Len(X) |-> TRUE])
+IsS(ty, p) == ty[p + 1]
+IsL(ty, p) == ~ty[p + 1]
+IsLms(ty, p) == p # 0 /\ ty[p + 1] /\ ~ty[p]
+LmsInOrder(ty) == SelectSeq([i \in 1..Len(ty) |-> i - 1], LAMBDA p : IsLms(ty, p))
+\* buckets (indexed by symbol; the code indexes by rank among the present symbols, the same thing
+\* for a dense alphabet -- that is the documented precondition)
+BucketStart(X) == [c \in 0..SetMax(Range(X)) |-> Cardinality({i \in 1..Len(X) : X[i] < c})]
+BucketEnd(X) == [c \in 0..SetMax(Range(X)) |-> Cardinality({i \in 1..Len(X) : X[i] <= c}) - 1]
+\* insert LMS positions at the ends of their buckets, last one first
+RECURSIVE SaisPlace(_, _, _, _, _)
+SaisPlace(X, lms, j, pos, bend) ==
+    IF j = 0 THEN pos
+    ELSE LET p == lms[j]  c == X[p + 1] IN
+         SaisPlace(X, lms, j - 1, [pos EXCEPT ![bend[c] + 1] = p], [bend EXCEPT ![c] = @ - 1])
+\* L pass, r = 0 .. n-1
+RECURSIVE SaisPassL(_, _, _, _, _)
+SaisPassL(X, ty, r, pos, bstart) ==
+    IF r = Len(X) THEN pos
+    ELSE LET p == pos[r + 1] IN
+         IF p = Len(X) \/ p = 0 \/ ~IsL(ty, p - 1) THEN SaisPassL(X, ty, r + 1, pos, bstart)
+         ELSE LET c == X[p] IN          \* text[pred], pred = p - 1
+              SaisPassL(X, ty, r + 1, [pos EXCEPT ![bstart[c] + 1] = p - 1], [bstart EXCEPT ![c] = @ + 1])
+\* S pass, r = n-1 .. 0.  As in the code an unknown slot (p = n) is not skipped: its "predecessor" is
+\* n - 1, the sentinel, which is S-type -- this is what places the sentinel when there is no LMS
+\* position at all (n = 1).
+RECURSIVE SaisPassS(_, _, _, _, _)
+SaisPassS(X, ty, r, pos, bend) ==
+    IF r < 0 THEN pos
+    ELSE LET p == pos[r + 1] IN
+         IF p = 0 \/ ~IsS(ty, p - 1) THEN SaisPassS(X, ty, r - 1, pos, bend)
+         ELSE LET c == X[p] IN
+              SaisPassS(X, ty, r - 1, [pos EXCEPT ![bend[c] + 1] = p - 1], [bend EXCEPT ![c] = @ - 1])
+\* calc_pos: step 2 of SA-IS from the LMS positions in `lms` (sorted or not)
+SaisCalcPos(X, ty, lms) ==
+    LET n  == Len(X)
+        p0 == SaisPlace(X, lms, Len(lms), [r \in 1..n |-> n], BucketEnd(X))
+        p1 == SaisPassL(X, ty, 0, p0, BucketStart(X))
+    IN  SaisPassS(X, ty, n - 1, p1, BucketEnd(X))
+\* lms_substring_eq
+RECURSIVE SaisLmsEq(_, _, _, _, _)
+SaisLmsEq(X, ty, i, j, k) ==
+    IF i + k >= Len(X) \/ j + k >= Len(X) THEN FALSE          \* (the code would index out of bounds)
+    ELSE LET li == IsLms(ty, i + k)  lj == IsLms(ty, j + k) IN
+         IF X[i + k + 1] # X[j + k + 1] THEN FALSE
+         ELSE IF li # lj THEN FALSE
+         ELSE IF k > 0 /\ li /\ lj THEN TRUE
+         ELSE SaisLmsEq(X, ty, i, j, k + 1)
+\* naming loop of sort_lms_suffixes over pos; nm = [red, label, prev]
+RECURSIVE SaisName(_, _, _, _, _, _)
+SaisName(X, ty, pos, rtp, x, nm) ==
+    IF x > Len(pos) THEN nm
+    ELSE LET p == pos[x] IN
+         IF ~IsLms(ty, p) THEN SaisName(X, ty, pos, rtp, x + 1, nm)
+         ELSE LET lab == IF nm.prev # None /\ ~SaisLmsEq(X, ty, nm.prev, p, 0) THEN nm.label + 1 ELSE nm.label
+              IN  SaisName(X, ty, pos, rtp, x + 1,
+                           [red |-> [nm.red EXCEPT ![rtp[p + 1] + 1] = lab], label |-> lab, prev |-> p])
+SaisNaming(X, ty, pos, rtp, count) ==
+    SaisName(X, ty, pos, rtp, 1, [red |-> [i \in 1..count |-> 0], label |-> 0, prev |-> None])
 
 \* ------------------------------- sampled suffix array (sample / get)
 SampleOf(sa, s) == [j \in 1..((Len(sa) - 1) \div s + 1) |-> sa[(j - 1) * s + 1]]
